@@ -424,9 +424,16 @@ def replay(case):
     return {"reproduced": bool(bad), "detail": f"{cls_name} from S={sorted(S)},P={sorted(P)},U={sorted(U)}: " + d}
 
 
+THOROUGH_CONES = ["orthant2", "theta30", "theta60", "theta90", "theta120", "theta150", "rand2d_0", "rand2d_1", "orthant3", "3d_acute",
+                  "3d_obtuse", "asym3d", "icecream_K4", "icecream_K6", "rand3d_0", "rand3d_1"]
+N4_CONES = ("orthant2", "theta60", "theta120")
+
+
 def configs(tier, prop):
     """(cls, ctype, cone name) cells"""
-    cones2 = ["orthant2", "theta60", "theta120"] if tier == "quick" else None
+    # stage 1 depends on the cone only through its facet count and the slack keys; the thorough tier therefore takes a
+    # spread of cones rather than the whole 10°-grid (which made 363 tasks, about 8 h on 16 cores)
+    cones2 = ["orthant2", "theta60", "theta120"] if tier == "quick" else THOROUGH_CONES
     out = []
     for cone, W in cone_set(tier, dims=(2,) if tier == "quick" else (2, 3)):
         if cones2 and cone not in cones2:
@@ -448,7 +455,7 @@ def configs(tier, prop):
 def tasks_for(prop, tier, seed):
     ts = []
     for cls, ct, cone, W in configs(tier, prop):
-        N = 3 if (tier == "quick" or W.shape[1] == 3) else 4
+        N = 4 if (tier != "quick" and cone in N4_CONES) else 3
         if cls == "VOGP_AD":
             N = 3
         if prop == "C11" and cls in A.PAVEBA:
